@@ -3,6 +3,7 @@
    the row that arrives at the bottom margin; set_size, clear and erase only clear flags.
    Consequence (C01): at scrollback offset 0 the redraw reproduces the FULL observation. *)
 Require Import Tac ListN Utf8 Width Attrs Cell Row Grid Screen Vte Perform Parser.
+Require Import Chunking.
 Require Import RowInv GridInv TextInv ScreenInv WfGrid WfInv PrintSpec.
 Open Scope N_scope.
 
@@ -665,8 +666,8 @@ Qed.
 (* ---- the parser API ---- *)
 Lemma process_lastu p bs q : process p bs = Ok q -> parser_ok p -> screen_lastu (scr p) -> screen_lastu (scr q).
 Proof.
-  unfold process. intros E Hok H. destruct (advance (vt p) bs) as [v acts].
-  binv E as p1 E1. destruct p1 as [s evs]. inv E. cbn [scr]. eapply perform_all_lastu; eauto.
+  rewrite process_unfold. intros E Hok H. destruct (advance (vt p) _) as [v acts].
+  binv E as p1 E1. destruct p1 as [s evs]. inv E. cbn [scr]. pose proof (parser_ok_scr _ Hok) as Hscr. eapply perform_all_lastu; eauto.
 Qed.
 
 Lemma step_lastu p o q : step p o = Ok q -> parser_ok p -> screen_lastu (scr p) -> screen_lastu (scr q).
@@ -704,6 +705,6 @@ Proof.
   destruct (parser_new_ok rows cols cap rz Hr Hc) as (p' & En' & Hok). assert (p' = p) as -> by congruence.
   destruct (run_ok ops p Hok Fo) as (q' & E' & Okq). assert (q' = q) as -> by congruence.
   pose proof (run_lastu ops p q Hok (parser_new_lastu _ _ _ _ _ En) Fo E) as HL.
-  pose proof (cur_lastu _ HL) as HC. destruct (cur_ok _ Okq) as (K & _).
+  pose proof (cur_lastu _ HL) as HC. destruct (cur_ok _ (parser_ok_scr _ Okq)) as (K & _).
   apply HC. rewrite (gk_live _ K). exact G.
 Qed.
